@@ -191,7 +191,11 @@ def checkC07 (p : PProject) (impl : Json) : PropOut := Id.run do
             let isAlias := match c with | .alias .. => true | _ => false
             -- C07-F6: the 3.1 document renders integer members beyond 2^53 through a float
             let bigInt := match c with | .enum _ _ "integer" vs => vs.any (fun v => v.length ≥ 16) | _ => false
-            let fid := if !is30 && bigInt then "C07-F6:" else if is30 && (isEnum || isAlias) && !aliasOfAlias then "C07-F1:" else if aliasOfAlias && (match c with | .alias _ _ (.ref _) => true | _ => false) then "C07-F5:" else ""
+            -- C07-F7: … and a member of a STRING enum that reads as another YAML scalar ("", null, true, 0) is rendered as that scalar
+            let looksOther := match c with
+              | .enum _ _ "string" vs => vs.any (fun v => v.isEmpty || ["null", "Null", "NULL", "~", "true", "True", "TRUE", "false", "False", "FALSE"].contains v || (Gleece.Text.parseUint v).isSome)
+              | _ => false
+            let fid := if !is30 && bigInt then "C07-F6:" else if !is30 && looksOther then "C07-F7:" else if is30 && (isEnum || isAlias) && !aliasOfAlias then "C07-F1:" else if aliasOfAlias && (match c with | .alias _ _ (.ref _) => true | _ => false) then "C07-F5:" else ""
             fails := fails ++ [fid ++ s!"component-differs:{k}:{n.2}"]
   let mut notes : List String := [s!"d:declared={ds.length}", s!"d:components={comps.length}", s!"d:unused={ds.length - comps.length}"]
   if collide then notes := notes ++ ["d:name-collision"]
